@@ -16,55 +16,6 @@ import NaijaVerif.Lemmas.MemEraseEval
 namespace NaijaVerif.Mem
 open NaijaVerif NaijaVerif.Pool
 
-/-! ### The initial state is safe -/
-
-theorem pools0_getElem {c : Nat} {p : Pool} (h : pools0[c]? = some p) :
-    p = Pool.new 0 (slotSizeOf c) (slotCountOf c) := by
-  unfold pools0 at h
-  rw [List.getElem?_map] at h
-  rcases hr : (List.range classCount)[c]? with _ | c'
-  · rw [hr] at h; cases h
-  · rw [hr] at h
-    simp only [Option.map_some, Option.some.injEq] at h
-    have : c' = c := by
-      rw [List.getElem?_eq_some_iff] at hr
-      obtain ⟨_, hr⟩ := hr
-      simpa using hr.symm
-    subst this; exact h.symm
-
-theorem safe_init (ctl : List CTok) (lay : List Nat) : Safe [] (St.init ctl lay) where
-  ok := by intro a ha; simp [St.init, St.allH, envH, slotsH, MVal.handlesL, tempsH] at ha
-  uniq := by intro X; simp [St.init, St.allH, envH, slotsH, MVal.handlesL, tempsH, cnt]
-  clean := by intro a ha; simp [St.init, envH, slotsH, MVal.handlesL] at ha
-  xsBelow := by intro a ha; cases ha
-  temps := trivial
-  slotsOk := by intro c i x h; simp [St.init] at h
-  poolOk := by
-    constructor
-    · intro c p hp
-      have := pools0_getElem hp
-      subst this
-      exact ⟨Pool.inv_new _ _ _, fun i => by simp [Pool.new, St.init]⟩
-    · simp [St.init]
-
-/-- The whole run under the fixed discipline, from the initial state. -/
-theorem run_benign (fuel : Nat) (prog : Block) (ctl : List CTok) (lay : List Nat) :
-    ∀ o, (run Cfg.fixed fuel prog ctl lay).stopped = some o → o.benign := by
-  intro o ho
-  have h : StepOK (do let fl ← execBlock Cfg.fixed fuel prog; popScope; pure fl : M Flow) := by
-    refine Triple.bind ((allOK fuel).execBlock prog) (fun fl => ?_)
-    refine Triple.bind (popScope_spec _) (fun _ => ?_)
-    exact Triple.pure _ (fun _ h => h)
-  have := h (St.init ctl lay) (safe_init ctl lay)
-  unfold run at ho
-  cases hr : (do let fl ← execBlock Cfg.fixed fuel prog; popScope; pure fl : M Flow) (St.init ctl lay) with
-  | ok a s' => rw [hr] at ho; cases ho
-  | stop o' s' =>
-    rw [hr] at ho
-    simp only [Res.stopped, Option.some.injEq] at ho
-    subst ho
-    exact this.2 o' s' hr
-
 /-! ### T1 — no value is read after its storage is recycled -/
 
 /-- **T1.** For EVERY program, every control oracle (branches, loop tests, short circuits, indices,
@@ -106,10 +57,6 @@ theorem c02_full : C02Holds Cfg.fixed :=
     ⟨c02_no_read_after_recycle fuel prog ctl lay, c02_pool_use_legal fuel prog ctl lay⟩
 
 /-! ### T3 — content integrity, hence erasure -/
-
-theorem rel_init (ctl : List CTok) (lay₁ lay₂ : List Nat) : R (St.init ctl lay₁) (St.init ctl lay₂) :=
-  ⟨rfl, by simp [St.init, EnvRel, SlotsRel], rfl, by simp [St.init, VRelL], by simp [St.init, TempsRel],
-   rfl, rfl⟩
 
 /-- **T3 (erasure).**  Run the evaluator with reclamation (`Cfg.fixed`: frame resets, pool slot
 recycling, promotion, return-value relocation) and without (`Cfg.noReclaim`: one arena, nothing ever
